@@ -1125,7 +1125,8 @@ func resolveOwner(p *Prog, spec string) *ssa.Function {
 				}
 				instrsOf(c, func(in2 ssa.Instruction) {
 					if call, ok := in2.(ssa.CallInstruction); ok {
-						if sc := call.Common().StaticCallee(); sc != nil && funcKey(sc) == parts[1] && c.Parent() != nil {
+						// the goroutine's entry is a literal or a small named method that calls the owner
+						if sc := call.Common().StaticCallee(); sc != nil && funcKey(sc) == parts[1] {
 							found = c
 						}
 					}
